@@ -15,8 +15,17 @@ vars == <<l, bad, stats>>
 
 Before(c, i) == IF i = 1 THEN c.live0 ELSE c.steps[i - 1].live
 
+\* a step of a history with crew operations in which the captain was not involved: the crew was what it was before the step
+\* all the way through it, so who had to see the message can be said
+\* (a machine without a specification - none given, or a source this crew cannot resolve - is not presented anything)
+Runnable(snap) == [k \in {x \in DOMAIN snap : x \in Services \/ snap[x].spec \notin {"", "x"}} |-> snap[k]]
+CaptainFree(s) == \A j \in DOMAIN s.events : ~(s.events[j][1] = "present" /\ s.events[j][2] = "captain")
 C14Labels(c) ==
-  IF c.kind # "route" THEN {} ELSE
+  IF c.kind = "hist" THEN
+    UNION { LET s == c.steps[i] snap == Before(c, i) IN
+            IF s.outcome = "returned" /\ CaptainFree(s) /\ ~DeliveredExactlyOnce(Runnable(snap), s.events) THEN {"not-exactly-once"} ELSE {}
+            : i \in DOMAIN c.steps }
+  ELSE IF c.kind # "route" THEN {} ELSE
   UNION { LET s == c.steps[i] snap == Before(c, i) IN
           (IF s.outcome # "returned" THEN {"process-failed"} ELSE {})
           \cup (IF s.outcome = "returned" /\ ~DeliveredExactlyOnce(snap, s.events) THEN {"not-exactly-once"} ELSE {})
